@@ -23,7 +23,7 @@
    six whitespace characters U+001C-1E, U+0085, U+2028, U+2029, VT and FF are line boundaries for str.splitlines
    (parse_str, parse_url) but not for readlines (parse_file) - a "line" containing one of them is two lines for
    parse_str; see C10_note_splitlines_only_boundary. *)
-From Coq Require Import List NArith Bool String.
+From Coq Require Import List NArith ZArith Bool String.
 From PrefVerif Require Import Lib.Val Lib.Dec Lib.PyStr Model.Meta Model.OrdIO Model.CatIO Model.WmdIO Model.Entry.
 From PrefVerif Require Import Proofs.Meta Proofs.Entry Proofs.EntryFiles.
 From PrefVerif Require Proofs.OrdIO Proofs.CatIO Proofs.WmdIO.
@@ -346,7 +346,7 @@ Proof. repeat split; vm_compute; reflexivity. Qed.
 
 Definition ex_wmd : twinst :=
   mkW (mkMeta (lit "g.wmd") (lit "T") [] (lit "wmd") [] [] [] [] [] 2 0 [(2, lit "b"); (1, [])] [])
-      3 [(2, [2; 1]); (1, [2])] [((2, 2), lit "0.5"); ((1, 2), lit "-1e-05"); ((2, 1), lit "7.0")].
+      3 [(2, [2; 1]); (1, [2])]%Z [((2, 2)%Z, lit "0.5"); ((1, 2)%Z, lit "-1e-05"); ((2, 1)%Z, lit "7.0")].
 
 Example C10_example_wmd : Proofs.WmdIO.wf_tok ex_wmd.
 Proof.
@@ -361,25 +361,25 @@ Proof.
       - repeat constructor; cbn; intuition discriminate. }
     split.
     { split; [repeat constructor; cbn; intuition discriminate|]. split.
-      - intros n. unfold nbrs. cbn.
-        destruct (N.eqb n 2); [repeat constructor; cbn; intuition discriminate|].
-        destruct (N.eqb n 1); [repeat constructor; cbn; intuition discriminate|]. constructor.
-      - intros n m. unfold nbrs. cbn.
-        destruct (N.eqb n 2); [cbn; intuition|]. destruct (N.eqb n 1); cbn; intuition. }
+      - intros n. unfold nbrs. cbn [assoc_get].
+        destruct (Z.eqb n 2); [repeat constructor; cbn; intuition discriminate|].
+        destruct (Z.eqb n 1); [repeat constructor; cbn; intuition discriminate|]. constructor.
+      - intros n m. unfold nbrs. cbn [assoc_get keys map fst].
+        destruct (Z.eqb n 2); [cbn; intuition|]. destruct (Z.eqb n 1); cbn; intuition. }
     split.
     { split; [repeat constructor; cbn; intuition discriminate|].
-      intros n m. unfold nbrs. cbn. split.
+      intros n m. unfold nbrs. cbn [w_nodes w_weights assoc_get keys map fst]. split.
       - intros [H|[H|[H|[]]]]; injection H as <- <-; cbn; auto.
-      - destruct (N.eqb_spec n 2) as [->|]; [cbn; intuition (subst; auto)|].
-        destruct (N.eqb_spec n 1) as [->|]; cbn; intuition (subst; auto). }
+      - destruct (Z.eqb_spec n 2) as [->|]; [cbn; intuition (subst; auto)|].
+        destruct (Z.eqb_spec n 1) as [->|]; cbn; intuition (subst; auto). }
     split; [reflexivity|discriminate].
   - repeat constructor.
 Qed.
 
 Example C10_example_wmd_entrypoints :
   parse_entry EUrl CWmd (lit "wmd") (mkFlags false false) (restyle ex_pads (wmd_write_tok ex_wmd)) =
-  Ok (IWmd (mkW (set_num_voters (w_meta ex_wmd) 2) 3 [(1, [2]); (2, [1; 2])]
-                [((1, 2), lit "-1e-05"); ((2, 1), lit "7.0"); ((2, 2), lit "0.5")])) /\
+  Ok (IWmd (mkW (set_num_voters (w_meta ex_wmd) 2) 3 [(1, [2]); (2, [1; 2])]%Z
+                [((1, 2)%Z, lit "-1e-05"); ((2, 1)%Z, lit "7.0"); ((2, 2)%Z, lit "0.5")])) /\
   parse_entry EUrl CWmd (lit "wmd") (mkFlags false true) (restyle ex_pads (wmd_write_tok ex_wmd)) =
   Ok (IWmd (mkW (set_num_voters (w_meta ex_wmd) 2) 3 [] [])).
 Proof. split; vm_compute; reflexivity. Qed.
